@@ -85,7 +85,7 @@ uint32_t svt_aom_mse16x16_c(const uint8_t *src_ptr, int32_t source_stride, const
                             int32_t recon_stride, uint32_t *sse) {
     int32_t sum;
     variance(src_ptr, source_stride, ref_ptr, recon_stride, 16, 16, sse, &sum);
-    return *sse - (uint32_t)(((int64_t)sum * sum) / (16 * 16));
+    return *sse;
 }
 
 static int64_t get_sse(const uint8_t *a, int32_t a_stride, const uint8_t *b, int32_t b_stride,
